@@ -425,8 +425,8 @@ def run(chk, replay=None):
     chk.coverage['translator'] = {'status': 'ok' if not info['unparsed'] else 'partial', 'definitions': len(info['defs']),
                                   'unparsed': info['unparsed'], 'conjPartnerMustBeSimple': info['flag'],
                                   'keyOptions': info['keyOptions'], 'readOptions': info['readOptions'],
-                                  'dampedSin': info['dampedSin'], 'qLoop': info['qLoop'], 'residueDivisor': info['residueDivisor']}
-    broken = chk.lean(['Lcapy/Props/C10.lean', 'Lcapy/Props/C10b.lean', 'Lcapy/Props/C10c.lean'],
+                                  'dampedSin': info['dampedSin'], 'qLoop': info['qLoop'], 'residueDivisor': info['residueDivisor'], 'make': info['make']}
+    broken = chk.lean(['Lcapy/Props/C10.lean', 'Lcapy/Props/C10b.lean', 'Lcapy/Props/C10c.lean', 'Lcapy/Props/NonVacuityC10.lean'],
                       helper_files=['Lcapy/Proofs/ResidueSub.lean', 'Lcapy/Model/ResidueSub.lean', 'Lcapy/Proofs/Laplace.lean', 'Lcapy/Proofs/LaplaceILT.lean', 'Lcapy/Proofs/LaplaceDS.lean', 'Lcapy/Spec/Signal.lean',
                                     'Lcapy/Model/ExpPoly.lean', 'Lcapy/Model/ILT.lean', 'Lcapy/Generated/ILTFlags.lean', 'Lcapy/Driver/C10.lean',
                                     'Lcapy/Driver/C09.lean'],
